@@ -10,12 +10,16 @@ from run import Case
 from regmachine import Machine
 
 PROPERTY = "C03"
-LEAN_MODULE = "PyOak.Props.C03"
+LEAN_MODULE = "PyOak.Props.C03All"      # C03 + C03Extra (AUDIT #7 additions)
 THEOREMS = ["PyOak.C03." + t for t in [
     "freshId_free", "id_fresh_is_base", "pNew_inv", "pDetachSelf_inv", "pRestore_inv", "pForceId_inv", "pForceId_LR",
     "gc_inv", "gc_regLive", "gc_liveRegistered", "inv_step", "regLive_step", "inv_run", "regLive_run",
     "liveRegistered_step_partial", "liveRegistered_step", "liveRegistered_run", "replace_fail_frame",
     "replace_fail_raised", "get_sound", "asObj_evicts_live"]]
+# Props/C03Extra.lean (AUDIT.md C03 §4 / top-10 #7): lookup completeness, distinct ids, detach unregisters the subtree
+THEOREMS += ["PyOak.C03." + t for t in [
+    "lookup_complete", "lookup_only_own_class", "lookup_unique", "registered_ids_distinct", "live_ids_distinct",
+    "detach_unregisters", "detach_not_returned"]]
 PARTIAL = ["liveRegistered_step for as_obj carries the decidable hypothesis noClash (no forced serialized id is occupied at "
            "the moment it is forced); the excluded point is the known finding F19 (theorem asObj_evicts_live is its "
            "decide-checked witness) and is replayed on the real code in every run"]
